@@ -49,6 +49,7 @@ PROPS = {
         "classes": r"hom\.|^effects\.define_\w+: (returns an existing value|allocates nothing when)|^(?!step\.early).*" + STRUCT,
         "lemmas": lambda n: n in ("new", "prologue", "step") or n.startswith("api.") or n.startswith("effects.define_"),
         "witness": "forced",
+        "rule_sound": True,
         "explanation": "bounded inductive verification with a ghost model: for an arbitrary structure N over the universe bound that is a model of "
                        "the reference rules (every stage, every assignment; single-valued functions) and an arbitrary map h from element ids to N, "
                        "the invariant `h is a homomorphism from the current state into N` (equal elements have equal images, every row of every table "
@@ -278,6 +279,30 @@ def main():
                 else:
                     unconfirmed.append((name, [lab], [obs]))
         P.log("rule-level check: %d programs, %d stages, %d violations" % (len(canon_results), sum(r["stages"] for r in canon_results), sum(len(r["violations"]) for r in canon_results)))
+    # C02-R: rule-level soundness on the sub-databases of canonical databases (any model size), natively replayed with a certificate
+    sound_results = []
+    if cfg.get("rule_sound"):
+        import canon
+        import multiprocessing as mp
+        allp = dict(corpus.programs)
+        stasks = [{"program": name, "rs": pinfo["rs"], "eql": pinfo["eql"]} for name, pinfo in sorted(allp.items())]
+        with mp.get_context("fork").Pool(min(16, len(stasks)), maxtasksperchild=4) as pool:
+            sound_results = pool.map(canon.sound_program, stasks, chunksize=1)
+        for r in sound_results:
+            name = r["program"]
+            su2, sch2 = schemas[name]
+            if r["status"] != "ok":
+                unconfirmed.append((name, ["rule-level soundness check"], [r.get("reason", "")[:300]]))
+            for v in r["violations"]:
+                lab = "rule-level: rule %s (stage %d) pushes %s %s%s on the database %s, which no stage of the rule concludes there" % (v["rule"], v["stage"], v["kind"], v["rel"], v["tuple"], v["database"])
+                ok, obs, cert = canon.replay_sound(harness, name, su2, sch2, v, terminates=corpus.terminates(name))
+                if ok:
+                    path = P.save_replay(prop, name + "_rule_" + v["rule"], allp[name]["eql"], v["script"] + ["close"], [obs], {"violation": v, "least_model_of_the_rules_over_the_database": cert}, kind="rule-sound")
+                    violations.append((name, [lab], path, (v["script"] + ["close"], [obs], {})))
+                else:
+                    unconfirmed.append((name, [lab], [obs]))
+        P.log("rule-level soundness: %d programs, %d stages, %d databases, %d pushes, %d unjustified" % (
+            len(sound_results), sum(r["stages"] for r in sound_results), sum(r["databases"] for r in sound_results), sum(r["pushes"] for r in sound_results), sum(len(r["violations"]) for r in sound_results)))
     sc_results = []
     if cfg.get("selfcomp"):
         import selfcomp as SC
@@ -348,6 +373,10 @@ def main():
         "compiler_build_s": round(build_s, 1),
         "kani_unification": kani,
     }
+    if cfg.get("rule_sound"):
+        cov["rule_level_soundness_on_sub_databases"] = {"programs": len(sound_results), "stages": sum(r["stages"] for r in sound_results), "databases": sum(r["databases"] for r in sound_results),
+                                                        "pushes_checked": sum(r["pushes"] for r in sound_results), "skipped": [s_ for r in sound_results for s_ in r["skipped"]][:20],
+                                                        "claim": "for every stage with <= 5 variables and <= 7 premise tuples the real rule module is run on every sub-database of the stage's canonical database; every push is the conclusion of a stage of the rule under an assignment whose premise holds there (concrete executions; any model size)"}
     if cfg.get("rule_level"):
         cov["rule_level_canonical_databases"] = {"programs": len(canon_results), "stages": sum(r["stages"] for r in canon_results),
                                                  "largest_rule_variables": max([r["max_vars"] for r in canon_results] + [0]),
